@@ -350,6 +350,8 @@ def query (args : List String) : Option String :=
         | some c => some ("ok " ++ showCfg c)
         | none => some "err"
   | "json" :: rest => (parseCfg rest).map (fun _ => "rt-ok")
+  -- serde_json's grammar is not modelled: the verdict on a JSON body is the oracle's (size within 1..=10^9 or rejected)
+  | ["jparse", _] => some "judge"
   | "rt" :: rest => do
       let c ← parseCfg rest
       match fromPairs (toPairs c) with
@@ -440,6 +442,28 @@ def serdeOracle (op : String) (t : Ty) (args : List String) (impl : String) : Op
 def oracle (toks : List String) (impl : String) : Option String :=
   match toks with
   | "c09.query" :: "json" :: _ => verdict (impl == "rt-ok") "QueryConfig must survive serde_json"
+  | ["c09.query", "jparse", text] =>
+      -- spec: the `size` member is a plain decimal within 1..=10^9 and is what the decoder returns, or the body is rejected
+      match text.splitOn "\"size\":" with
+      | [_, rest] =>
+        let tok := String.ofList (rest.toList.takeWhile (fun c => c != ',' && c != '}'))
+        (match (if tok.all Char.isDigit then tok.toNat? else none) with
+         | some n =>
+           if 0 < n && n ≤ IpaVerif.QueryString.maxSize then
+             verdict (impl.startsWith "ok " && (impl.splitOn " ").getD 3 "" == toString n) "a query size within 1..=10^9 must be decoded to itself"
+           else verdict (impl == "err") "a query size outside 1..=10^9 must be rejected when the JSON body is decoded"
+         | none => verdict (impl == "err") "a size that is not a plain unsigned decimal must be rejected")
+      | _ => some "unknown"
+  | ["c09.query", "parse", qs] =>
+      -- spec side, sizes only: whatever else the string says, an accepted configuration has a size within 1..=10^9
+      match ((qs.splitOn "&").filterMap (fun kv => match kv.splitOn "=" with | ["size", v] => some v | _ => none)) with
+      | [v] =>
+        (match (if v.all Char.isDigit && !v.isEmpty then v.toNat? else none) with
+         | some n =>
+           if 0 < n && n ≤ IpaVerif.QueryString.maxSize then some "unknown"
+           else verdict (impl == "err") "a query size outside 1..=10^9 must be rejected when the query string is decoded"
+         | none => verdict (impl == "err") "a size that is not a plain unsigned decimal must be rejected")
+      | _ => some "unknown"
   | "c09.query" :: "rt" :: rest =>
       -- the property itself: Display then the extractor returns the configuration
       verdict (impl == "ok " ++ String.intercalate " " rest) "parsing the query string written for a configuration must return that configuration"
